@@ -62,6 +62,10 @@ Inductive case :=
    [held] of them established; then a probe on the same route and one on another route: status and
    milliseconds to the complete answer, and the bound *)
 | CAdmit (kind k held : Z) (same_status same_ms other_status other_ms bound_ms : Z)
+(* one large POST on connection A overlapping k single-request connections through a compressed plugin proxy:
+   A's status, digest sent / digest the backend received, how many of the k were answered correctly,
+   elapsed and bound (ms) *)
+| COverlap (k a_status : Z) (a_sent a_seen : bytes) (b_ok ms bound : Z)
 (* a request through frps (route rc) and then a plugin of frpc *)
 | CChain (rc : hr_route) (p : hr_plugin) (o : hr_popts) (plugin_client_ip : option bytes)
          (uq : hr_req) (reenc : bytes) (seen : c02_seen) (resp got : hr_resp).
@@ -182,9 +186,19 @@ Definition check_case (c : case) : Z :=
           else if negb ((other_status =? 200) && (other_ms <=? bound)) then 64
           else 0
       end
+  | COverlap k a_status a_sent a_seen b_ok ms bound =>
+      if negb (a_status =? 200) then 71
+      else if negb (bytes_eqb a_sent a_seen) then 72
+      else if negb (b_ok =? k) then 73
+      else if negb (ms <=? bound) then 74
+      else 0
   | CKeep compressed answered =>
-      (* the handler (a reverse proxy round trip) outlives the request body: background read pending *)
-      let pred := hk_serve (hk_fresh compressed) (map (fun _ => true) answered) in
+      (* [pending] (was the server's background read in flight when the handler returned) is an oracle: it is
+         read off the observation (the next request got no answer <-> the read had been interrupted); the model
+         then has to reproduce the whole sequence: without compression every request answered, with compression
+         answers up to the first interrupted read and none after it *)
+      let pendings := map negb (tl answered) ++ [true] in
+      let pred := hk_serve (hk_fresh compressed) pendings in
       if forallb (fun ab => Bool.eqb (fst ab) (snd ab)) (combine pred answered) then 0 else 51
   | CTunnel kind accepted us ur ds dr =>
       if negb accepted then 41
@@ -241,3 +255,4 @@ Definition is_tunnel (k : Z) (c : case) : bool := match c with CTunnel k' _ _ _ 
 Definition is_keep (comp : bool) (c : case) : bool := match c with CKeep k _ => Bool.eqb k comp | _ => false end.
 Definition keep_lost (c : case) : bool := match c with CKeep _ a => existsb negb a | _ => false end.
 Definition is_admit (kind : Z) (c : case) : bool := match c with CAdmit k' _ _ _ _ _ _ _ => k' =? kind | _ => false end.
+Definition is_overlap (c : case) : bool := match c with COverlap _ _ _ _ _ _ _ => true | _ => false end.
